@@ -24,9 +24,11 @@ TRUSTED = ['netaddr text<->integer conversion of IPv4 addresses/prefixes and MAC
 ASSUMPTIONS = ['model/YPrefix4.v, YAttr.v, YUpdate.v are hand-written and tied to yabgp/message/update.py and '
                'yabgp/message/attribute/*.py by the correspondence run of this check (construct and parse, '
                'valid and malformed inputs)',
-               'the models describe the code AFTER the four proposed fix: patches build/proposed/c06-*.diff',
+               'the models describe the code with the fix: commits applied (C06: /0 prefix, withdraw+attributes, unsigned '
+               'large community, well-known names; others: AS_PATH segment type check, LARGE_COMMUNITY non-empty multiple of 12, '
+               'traffic-action decode)',
                'not modelled (never fed): MP_REACH/MP_UNREACH/PMSI/LINK_STATE/PREFIX_SID decoders, extended '
-               'communities traffic-rate (float), traffic-action and color-xx construction, IPv6 addresses '
+               'communities traffic-rate (float), traffic-action/color-xx construction, IPv6 addresses '
                'in AGGREGATOR/ORIGINATOR_ID/CLUSTER_LIST']
 IMPORTS = 'From YV Require Import lib.Base gen.Consts model.YMsg model.YPrefix4 model.YAttr model.YUpdate.\n'
 
@@ -207,6 +209,9 @@ def c_ext(item):
         if '.' in a:
             return [256 + base, [int(netaddr.IPAddress(a)), int(n)]]
         return [base, [int(a), int(n)]]
+    if name == 'traffic-action':             # 'S:<bit6>,T:<bit7>' (decoded only; construction not modelled)
+        sv, tv = rest.split(',')
+        return [32775, [int(sv.split(':')[1]), int(tv.split(':')[1])]]
     code = EXT_NAME_CODE.get(name)
     if code is None:
         return [999999, []]
@@ -509,6 +514,11 @@ def gen_messages(ctx):
         {'withdraw': [], 'attrs': [(16, ('exts', [(1537, [1, 1 << 20])]))], 'nlri': []},
         {'withdraw': [], 'attrs': [(32, ('large', [[TWO32, 0, 0]]))], 'nlri': []},
         {'withdraw': [], 'attrs': [(32, ('large', [[1, 2]]))], 'nlri': []},
+        {'withdraw': [], 'attrs': [(32, ('large', []))], 'nlri': []},
+        {'withdraw': [], 'attrs': [(32, ('large', [[1, 2, 3, 4]]))], 'nlri': []},
+        {'withdraw': [], 'attrs': [(32, ('large', [[1, 2], [3]]))], 'nlri': []},
+        {'withdraw': [], 'attrs': [(2, ('path', [(2, [1 << 16]), (5, [1])]))], 'nlri': []},
+        {'withdraw': [], 'attrs': [(2, ('path', [(5, [1]), (2, [1 << 32])]))], 'nlri': []},
         {'withdraw': [], 'attrs': [(32, ('large', [[1, 2, 3]] * 22))], 'nlri': []},
         {'withdraw': [], 'attrs': [(99, ('num', 1))], 'nlri': []},
         {'withdraw': [(0x0B000000, 8)], 'attrs': [(99, ('num', 1))], 'nlri': [(0x0A000000, 8)]},
@@ -553,7 +563,7 @@ def wf_val(tc, v, asn4):
             return lims is not None and len(f) == len(lims) and all(x < y for x, y in zip(f, lims))
         return k == 'exts' and 1 <= len(v[1]) <= 31 and all(ok(c, f) for c, f in v[1])
     if tc == 32:
-        return k == 'large' and len(v[1]) <= 21 and all(len(c) == 3 and all(x < TWO32 for x in c) for c in v[1])
+        return k == 'large' and 1 <= len(v[1]) <= 21 and all(len(c) == 3 and all(x < TWO32 for x in c) for c in v[1])
     return False
 
 
@@ -860,6 +870,11 @@ def run(ctx):
             for x in datas:
                 cases.append(('sx_pattrs (parse_attributes %s %s)' % (coq_bool(asn4), coq_bytes(x)),
                               impl_parse_attributes(x, asn4), ['parse_attributes', asn4, x.hex()]))
+    # traffic-action extended community (decoded, never constructed by the generator)
+    for last in (0, 1, 2, 3, 128, 255):
+        x = bytes([0xc0, 16, 16, 0x80, 0x07, 0, 0, 0, 0, 0, last, 0x00, 0x02, 0xfd, 0xe8, 0, 0, 0, 7])
+        cases.append(('sx_pattrs (parse_attributes false %s)' % coq_bytes(x),
+                      impl_parse_attributes(x, False), ['parse_attributes', False, x.hex()]))
     # ---- malformed stream for Update.parse ----
     per = 4 if ctx.thorough else 1
     for bi, (asn4, body) in enumerate(bodies):
